@@ -98,8 +98,9 @@ def _alarm(signum, frame):
     raise Budget('wall')
 
 
-def run_main(argv, budget):
+def run_main(argv, budget, wall=None):
     """Calls the real prophyc.main under a work budget.  Returns (outcome, detail, events)."""
+    wall = wall or WALL_LIMIT
     import prophyc
     import contextlib
     import signal
@@ -109,7 +110,7 @@ def run_main(argv, budget):
     outcome, detail = 'return', ''
     # last-resort kill (harness safety net); the deterministic counter is the oracle
     old_handler = signal.signal(signal.SIGALRM, _alarm)
-    signal.alarm(WALL_LIMIT)
+    signal.alarm(wall)
     mon.use_tool_id(TOOL, 'vf-budget')
     mon.register_callback(TOOL, mon.events.JUMP, cnt.jump)
     mon.register_callback(TOOL, mon.events.PY_START, cnt.start)
@@ -119,7 +120,7 @@ def run_main(argv, budget):
             with contextlib.redirect_stderr(err), contextlib.redirect_stdout(out):
                 prophyc.main(list(argv))
         except Budget as b:
-            outcome, detail = 'BUDGET', ('no progress for %d s' % WALL_LIMIT) if b.args else \
+            outcome, detail = ('WALL' if b.args else 'BUDGET'), ('no answer within %d s' % wall) if b.args else \
                 'more than %d function starts + loop iterations' % budget
         except prophyc.ProphycError as e:
             outcome, detail = 'ProphycError', str(e)[:300]
@@ -339,6 +340,15 @@ def judge(job):
             budget = 5 * base_calls + 100000
             before = {f: os.stat(f).st_mtime_ns for f in requested_outputs(argv) if os.path.exists(f)}
             o, detail, calls = run_main(argv, budget)
+            if o == 'WALL':
+                # the deterministic counter did not trip but the clock did: a loaded machine, or a loop outside Python
+                # code.  Only an input that stays silent for ten times as long is reported.
+                for fn, content in files.items():
+                    with open(os.path.join(d, fn), 'wb' if isinstance(content, bytes) else 'w') as f:
+                        f.write(content)
+                o, detail, calls = run_main(argv, budget, wall=10 * WALL_LIMIT)
+                if o == 'WALL':
+                    o = 'BUDGET'
             if o == 'return' and '--version' not in argv and '-h' not in argv:
                 # "writes all requested outputs and succeeds": every requested file is there, non-empty and written by this run
                 missing = [f for f in requested_outputs(argv)
